@@ -7,6 +7,7 @@ import (
 	"sort"
 	"strings"
 	"sync"
+	"sync/atomic"
 	"time"
 
 	"github.com/gocql/gocql"
@@ -37,7 +38,7 @@ func init() {
 			}
 			return []runner.Phase{
 				{Name: "sessions", Variant: "plain", Cases: n, Run: c03case, CaseTimeout: 90 * time.Second,
-					Required: []string{"op_query", "op_execute", "op_batch", "op_prepare", "op_startup", "op_register", "op_auth_response", "v1", "v2", "v3", "v4", "v5", "compressed_requests", "named_values", "unset_values", "payloads"}},
+					Required: []string{"op_query", "op_execute", "op_batch", "op_prepare", "op_startup", "op_register", "op_auth_response", "v1", "v2", "v3", "v4", "v5", "compressed_requests", "named_values", "unset_values", "payloads", "objects_executed_again"}},
 				{Name: "inexpressible", Variant: "plain", Cases: n / 20, Run: c03inexpr, CaseTimeout: 60 * time.Second, Required: []string{"inexpressible_requests"}},
 				{Name: "limits", Variant: "plain", Cases: 10, Shards: 5, Run: c03limits, CaseTimeout: 5 * time.Minute, Required: []string{"limit_cases"}},
 			}
@@ -77,6 +78,8 @@ type c03exp struct {
 	batchType  int
 	entries    []c03entry
 	seen       int
+	wantSeen   int   // how often the request was asked for (the same Query / Batch object executed again); 0 = once
+	notBefore  int64 // microseconds: the clock just before the (latest) execution was started
 }
 
 type c03state struct {
@@ -173,6 +176,9 @@ func (st *c03state) checkParams(op string, e *c03exp, p *cqlref.QueryParams, req
 			}
 		} else if d := p.Timestamp - time.Now().UnixNano()/1000; d > 3600e6 || d < -3600e6 {
 			st.problem(k("timestamp-implausible"), fmt.Sprintf("%s %q: default timestamp %d is not microseconds around now", op, e.stmt, p.Timestamp))
+		} else if nb := atomic.LoadInt64(&e.notBefore); nb != 0 && p.Timestamp < nb {
+			// same process, same clock: the driver reads it after the execution was started
+			st.problem(k("timestamp-stale"), fmt.Sprintf("%s %q: the driver-generated timestamp %d is %d us older than the start of this execution", op, e.stmt, p.Timestamp, nb-p.Timestamp))
 		}
 	}
 	wantKS := v >= 5 && st.keyspace != ""
@@ -315,6 +321,8 @@ func (st *c03state) handler(sc *fakenode.ServerConn, req *fakenode.Req) {
 			} else if wantTS && e.explicitTS == 0 {
 				if d := req.BatchTS - time.Now().UnixNano()/1000; d > 3600e6 || d < -3600e6 {
 					st.problem(k("timestamp-implausible"), fmt.Sprintf("batch default timestamp %d", req.BatchTS))
+				} else if nb := atomic.LoadInt64(&e.notBefore); nb != 0 && req.BatchTS < nb {
+					st.problem(k("timestamp-stale"), fmt.Sprintf("the driver-generated batch timestamp %d is %d us older than the start of this execution", req.BatchTS, nb-req.BatchTS))
 				}
 			}
 		}
@@ -467,8 +475,11 @@ func c03case(c *runner.Ctx, i int) {
 			st.exp[e.stmt] = e
 			st.mu.Unlock()
 			asked = append(asked, e.stmt)
+			atomic.StoreInt64(&e.notBefore, time.Now().UnixNano()/1000)
 			if err := q.Exec(); err != nil {
 				st.problem(fmt.Sprintf("C03:query:v%d:exec-error", version), "unprepared query failed: "+err.Error())
+			} else if r.Intn(3) == 0 {
+				c03again(c, st, e, func() error { return q.Exec() })
 			}
 			c.Add("op_query", 1)
 		case kind < 7: // PREPARE + EXECUTE
@@ -516,8 +527,11 @@ func c03case(c *runner.Ctx, i int) {
 			q := sess.Query(e.stmt, args...)
 			c03apply(r, q, e, e, cfg, version, payload, tracer)
 			asked = append(asked, e.stmt)
+			atomic.StoreInt64(&e.notBefore, time.Now().UnixNano()/1000)
 			if err := q.Exec(); err != nil {
 				st.problem(fmt.Sprintf("C03:execute:v%d:exec-error", version), "prepared query failed: "+err.Error())
+			} else if r.Intn(3) == 0 {
+				c03again(c, st, e, func() error { return q.Exec() })
 			}
 			c.Add("op_execute", 1)
 			c.Add("op_prepare", 1)
@@ -600,8 +614,11 @@ func c03case(c *runner.Ctx, i int) {
 			st.exp["batch:"+e.stmt] = e
 			st.mu.Unlock()
 			asked = append(asked, "batch:"+e.stmt)
+			atomic.StoreInt64(&e.notBefore, time.Now().UnixNano()/1000)
 			if err := sess.ExecuteBatch(b); err != nil {
 				st.problem(fmt.Sprintf("C03:batch:v%d:exec-error", version), "batch failed: "+err.Error())
+			} else if r.Intn(3) == 0 {
+				c03again(c, st, e, func() error { return sess.ExecuteBatch(b) })
 			}
 			c.Add("op_batch", 1)
 		}
@@ -609,7 +626,7 @@ func c03case(c *runner.Ctx, i int) {
 	// every asked request must have reached the node exactly once
 	st.mu.Lock()
 	for _, k := range asked {
-		if e := st.exp[k]; e != nil && e.seen != 1 {
+		if e := st.exp[k]; e != nil && e.seen != 1 && e.seen != e.wantSeen {
 			st.problems = append(st.problems, fmt.Sprintf("request %q reached the node %d times", k, e.seen))
 			st.pkeys = append(st.pkeys, fmt.Sprintf("C03:%s:v%d:arrivals", e.op, version))
 		}
@@ -725,6 +742,20 @@ func c03case(c *runner.Ctx, i int) {
 		c.Sample(map[string]interface{}{"version": version, "compression": negotiated, "request_shapes": hs})
 	}
 	st.mu.Unlock()
+}
+
+// c03again executes the same Query / Batch object a second time: the request on the wire is the same logical
+// request again (a new driver-generated timestamp included).
+func c03again(c *runner.Ctx, st *c03state, e *c03exp, exec func() error) {
+	time.Sleep(2 * time.Millisecond)
+	st.mu.Lock()
+	e.wantSeen = 2
+	st.mu.Unlock()
+	atomic.StoreInt64(&e.notBefore, time.Now().UnixNano()/1000)
+	c.Add("objects_executed_again", 1)
+	if err := exec(); err != nil {
+		st.problem(fmt.Sprintf("C03:%s:v%d:exec-error", e.op, st.version), "second execution of the same object failed: "+err.Error())
+	}
 }
 
 // c03bindType: a bind-marker type. Top-level tuples are left out: the driver expands a tuple
